@@ -6,6 +6,8 @@ import (
 	"math"
 	"reflect"
 	"strings"
+	"sync"
+	"sync/atomic"
 	"unicode/utf16"
 	"unicode/utf8"
 
@@ -21,21 +23,28 @@ import (
 // saves CPU and memory.
 // Currently, importedString is created in 2 cases: Runtime.ToValue() for strings longer than 16 bytes and as a result
 // of JSON.stringify() if it may contain unicode characters. More cases could be added in the future.
+// Like the other primitive values an importedString may be used by several Runtimes (goroutines) at the same time,
+// therefore the lazily computed part is published with a sync.Once and the flag is only accessed atomically.
 type importedString struct {
 	s string
 	u unicodeString
 
-	scanned bool
+	scanned  uint32 // 1 when u is valid; accessed atomically
+	scanOnce sync.Once
 }
 
 func (i *importedString) scan() {
 	i.u = unistring.Scan(i.s)
-	i.scanned = true
+	atomic.StoreUint32(&i.scanned, 1)
+}
+
+func (i *importedString) isScanned() bool {
+	return atomic.LoadUint32(&i.scanned) != 0
 }
 
 func (i *importedString) ensureScanned() {
-	if !i.scanned {
-		i.scan()
+	if !i.isScanned() {
+		i.scanOnce.Do(i.scan)
 	}
 }
 
@@ -165,9 +174,9 @@ func (i *importedString) Length() int {
 }
 
 func (i *importedString) Concat(v String) String {
-	if !i.scanned {
+	if !i.isScanned() {
 		if v, ok := v.(*importedString); ok {
-			if !v.scanned {
+			if !v.isScanned() {
 				return &importedString{s: i.s + v.s}
 			}
 		}
@@ -196,7 +205,7 @@ func (i *importedString) CompareTo(v String) int {
 }
 
 func (i *importedString) Reader() io.RuneReader {
-	if i.scanned {
+	if i.isScanned() {
 		if i.u != nil {
 			return i.u.Reader()
 		}
@@ -242,7 +251,7 @@ func (s *stringUtf16Reader) ReadRune() (r rune, size int, err error) {
 }
 
 func (i *importedString) utf16Reader() utf16Reader {
-	if i.scanned {
+	if i.isScanned() {
 		if i.u != nil {
 			return i.u.utf16Reader()
 		}
@@ -254,7 +263,7 @@ func (i *importedString) utf16Reader() utf16Reader {
 }
 
 func (i *importedString) utf16RuneReader() io.RuneReader {
-	if i.scanned {
+	if i.isScanned() {
 		if i.u != nil {
 			return i.u.utf16RuneReader()
 		}
